@@ -287,6 +287,9 @@ func (tr *simTransport) RoundTrip(req *http.Request) (*http.Response, error) {
 	if t == nil {
 		return nil, errors.New("verifsim: request outside a task")
 	}
+	if t.parent != nil {
+		t = t.parent // a goroutine of the code under test acts for the caller task's op
+	}
 	op := &t.ops[t.curOp]
 	oo := &t.out[t.curOp]
 	ns := tr.world.net[t.id][t.curOp]
